@@ -511,6 +511,58 @@ def rw_fold_loop(text, nth, fired, fname):
     raise Undecided('lost-anchor', 'fold %d: no such expression in %s' % (nth, fname))
 
 
+def rw_sum_loop(text, nth, fired, fname):
+    """R33 (added for unit `data_body`, directive `@@sum_loop k`): the nth expression of the form
+        ITER.map(|X| E).sum::<T>()
+    becomes the definition of Iterator::map + Iterator::sum for a primitive integer T (std:
+    `iter.fold(0, #[rustc_inherit_overflow_checks] |a, b| a + b)`):
+        ({ let mut vx_s_k: T = 0; for X in ITER { vx_s_k = vx_s_k + (E); } vx_s_k })
+    E is the verbatim source text.  Guards (else UNDECIDED): X is a single identifier, E has no `return` /
+    `?` / `break` / `continue`, the turbofish type T is spelled out, ITER starts at the beginning of a
+    statement / block tail (it is the whole receiver chain).  The closure no longer counts for
+    `@@closure k`; the new `for` is an ordinary loop for @@desugar_for / @@name_for / @@loop numbering."""
+    src = Src(text)
+    cnt = 0
+    for i in range(src.n()):
+        if not (src.s(i) == '.' and src.s(i + 1) == 'map' and src.s(i + 2) == '('):
+            continue
+        close = src.match[i + 2]
+        if not (src.s(close + 1) == '.' and src.s(close + 2) == 'sum'):
+            continue
+        cnt += 1
+        if cnt != nth:
+            continue
+        k = i + 3
+        if not (src.s(k) == '|' and re.match(r'^\w+$', src.s(k + 1)) and src.s(k + 2) == '|'):
+            raise Undecided('unsupported-construct', 'sum %d in %s: closure is not `|x| E`' % (nth, fname))
+        x = src.s(k + 1)
+        if not (src.s(close + 3) == '::' and src.s(close + 4) == '<' and re.match(r'^[iu](8|16|32|64|128|size)$', src.s(close + 5))
+                and src.s(close + 6) == '>' and src.s(close + 7) == '(' and src.s(close + 8) == ')'):
+            raise Undecided('unsupported-construct', 'sum %d in %s: not `.sum::<primitive integer>()`' % (nth, fname))
+        ty = src.s(close + 5)
+        if any(src.s(q) in ('return', '?', 'break', 'continue') for q in range(k + 3, close)):
+            raise Undecided('unsupported-construct', 'sum %d in %s: closure body leaves the closure' % (nth, fname))
+        j = i - 1
+        while j >= 0:
+            sj = src.s(j)
+            if sj in rscan.CLOSE:
+                j = src.match[j] - 1
+                continue
+            if sj in (';', '{', '}', '=', 'return'):
+                break
+            j -= 1
+        start = j + 1
+        it_txt = text[src.t(start).pos:src.t(i - 1).end]
+        e_txt = text[src.t(k + 3).pos:src.t(close - 1).end]
+        whole_a, whole_b = src.t(start).pos, src.t(close + 8).end
+        nl = text[whole_a:whole_b].count('\n')
+        new = ('({ let mut vx_s_%d: %s = 0; for %s in %s { vx_s_%d = vx_s_%d + (%s); } vx_s_%d })'
+               % (nth, ty, x, it_txt.replace('\n', ' '), nth, nth, e_txt.replace('\n', ' '), nth) + '\n' * nl)
+        fired.append(('R33', src.line_of(whole_a), 'ITER.map(|x| E).sum::<T>() -> { let mut s: T = 0; for x in ITER { s = s + (E); } s }'))
+        return text[:whole_a] + new + text[whole_b:]
+    raise Undecided('lost-anchor', 'sum %d: no such expression in %s' % (nth, fname))
+
+
 def rw_fold_assign(text, nth, fired, fname):
     """R31 (added for unit `permissions`, directive `@@fold_assign k`; sibling of R29 for a closure whose
     body is an arbitrary expression): the nth expression of the form
@@ -1485,6 +1537,11 @@ def rw_mut_self(text, fired, fname):
         p_open = src.skip_generics(p_open)
     if not (src.s(p_open) == '(' and src.s(p_open + 1) == 'mut' and src.s(p_open + 2) == 'self'
             and src.s(p_open + 3) in (',', ')')):
+        if src.s(p_open) == '(' and src.s(p_open + 1) == 'self' and src.s(p_open + 2) in (',', ')'):
+            # a plain by-value `self` receiver needs no rewrite (the `mut` was dropped by a change):
+            # the function is judged on its text
+            fired.append(('note', 0, 'mut_self: receiver is already a plain `self`, nothing to rewrite'))
+            return text
         raise Undecided('lost-anchor', 'mut_self: %s has no `mut self` receiver' % fname)
     ob = rscan.find_block_open(src, fn_si)
     cb = src.match[ob]
@@ -1626,6 +1683,9 @@ def splice_function(ft, directives, security=False):
     for d in directives:
         if d.kind == 'fold_loop':
             text = rw_fold_loop(text, int(d.arg.split()[0]) if d.arg.strip() else 1, fired, ft.name)   # R29 (unit qos_plcdr)
+    for d in directives:
+        if d.kind == 'sum_loop':
+            text = rw_sum_loop(text, int(d.arg.split()[0]) if d.arg.strip() else 1, fired, ft.name)   # R33 (unit data_body)
     for d in directives:
         if d.kind == 'fold_assign':
             text = rw_fold_assign(text, int(d.arg.split()[0]) if d.arg.strip() else 1, fired, ft.name)   # R31 (unit permissions)
